@@ -132,6 +132,10 @@ def main():
                             {"hooked": h, "step": st}, key={"kind": "hooked-not-restored", "disabled_at_import": h["disabled_at_import"]})
             if not st["flag"] and st["args"] == "good" and st["wrapped"][0] != "ret":
                 R.violation("property", "checking is on and a well-typed call of the hooked module failed: %s (%s)" % (st["wrapped"], desc), {"hooked": h, "step": st}, key={"kind": "hooked-good-fails"})
+    # the statements the translator cut out of the source, run by CPython with scripted stand-ins, against their translation
+    # interpreted inside Coq (lib/storage_corr.py)
+    import storage_corr
+    R.coverage["source_fragment_cases"] = storage_corr.fragment_correspondence(R, ['wrapped'], 600 if R.thorough else 60)
     if not proved:
         R.violation("proof", "proof obligations of props/C19.v no longer check (generated switch table / early-return test): " + str(R.broken_proof)[-900:],
                     {"theorem_file": "coq/props/C19.v", "log": R.broken_proof}, no_input=not any(v["kind"] == "property" for v in R.violations))
